@@ -130,9 +130,44 @@ void release_all() {
 
 size_t live_buffers() { return g_bufs.size(); }
 
+// Library symbols are hidden (mk_global ... internal), so dladdr cannot see them; the harness is linked
+// -no-pie and the symbol table of the executable is read once with nm.
+static std::vector<std::pair<uintptr_t, std::string>> *g_syms;
+static void load_syms() {
+	g_syms = new std::vector<std::pair<uintptr_t, std::string>>();
+	char exe[512];
+	ssize_t n = readlink("/proc/self/exe", exe, sizeof exe - 1);
+	if (n <= 0) return;
+	exe[n] = 0;
+	std::string cmd = std::string("nm -n --defined-only '") + exe + "' 2>/dev/null";
+	FILE *f = popen(cmd.c_str(), "r");
+	if (!f) return;
+	char line[1024];
+	while (fgets(line, sizeof line, f)) {
+		unsigned long a;
+		char ty;
+		char name[800];
+		if (sscanf(line, "%lx %c %799s", &a, &ty, name) == 3 && (ty == 'T' || ty == 't' || ty == 'W' || ty == 'w'))
+			g_syms->push_back({(uintptr_t) a, name});
+	}
+	pclose(f);
+}
 std::string symbolize(void *addr) {
+	if (!g_syms) load_syms();
+	uintptr_t a = (uintptr_t) addr;
+	char buf[900];
+	size_t lo = 0, hi = g_syms->size();
+	while (lo < hi) {
+		size_t mid = (lo + hi) / 2;
+		if ((*g_syms)[mid].first <= a) lo = mid + 1; else hi = mid;
+	}
+	if (lo > 0 && a - (*g_syms)[lo - 1].first < (1u << 20)) {
+		size_t off = a - (*g_syms)[lo - 1].first;
+		if (off) snprintf(buf, sizeof buf, "%s+0x%zx", (*g_syms)[lo - 1].second.c_str(), off);
+		else snprintf(buf, sizeof buf, "%s", (*g_syms)[lo - 1].second.c_str());
+		return buf;
+	}
 	Dl_info di;
-	char buf[256];
 	if (dladdr(addr, &di) && di.dli_sname) {
 		snprintf(buf, sizeof buf, "%s+0x%zx", di.dli_sname, (size_t) ((uint8_t *) addr - (uint8_t *) di.dli_saddr));
 		return buf;
